@@ -9,7 +9,10 @@ COQ_MODULE = "Life.Model"; RUN_FN = "run"
 THEOREMS = ["C13_contained", "C13_errors_exact", "C13_ok_only_if_no_uncaught_panic", "C13_globals_released",
             "C13_others_as_if_silent", "C13_stereotype_in_force", "C13_errors_exact_full", "C13_ok_iff", "C13_others_teardown", "C13_silent_ends_no_later"]
 QUICK_N = 2500; THOROUGH_N = 120000
-RULE = ("scripts as for C09 (2..4 scripted modules with handler / start / task / end programs, injected messages) with panic!() placed in "
+RULE = ("scripts as for C09 (2..4 scripted modules with handler / start / task / end programs, injected messages) with a panic -- an "
+        "explicit panic!(), or one raised by the library on behalf of the module: schedule_at / send_at / "
+        "current().shutdow_and_restart_at called with a time stamp in the past (now - d, d >= 1 ns; at now = 0, where no past exists, "
+        "the script panics itself) -- placed in "
         "handle_message, at_sim_start (initial and restarts), at_sim_end and in spawned tasks: every (module, callback kind, program, "
         "position) of a healthy base simulation, both stereotypes (on_panic_catch true / false), set_stereotyp(catch | no catch) from "
         "callbacks and tasks -- in the very callback that panics, in an earlier event, in another program, before a restart --, one or "
@@ -19,6 +22,8 @@ RULE = ("scripts as for C09 (2..4 scripted modules with handler / start / task /
         "process, and a third time with the panics of one module replaced by 'quiet' (falls silent) to compare the other modules' logs.  "
         "non-trivial = distinct script whose run contains a callback panic and a later event of another module")
 TRUSTED = c09.TRUSTED + [
+    "a library-raised panic is scripted as: write the panic record, then call schedule_at / send_at / shutdow_and_restart_at with a past time stamp; if the "
+    "library does not panic inside the call the program simply goes on (and the log shows it)",
     "a callback panic is observed through the record the scripted callback writes just before panic!() (it carries the on_panic_catch "
     "flag read from current().stereotyp() at that moment); set_stereotyp calls are logged by the script action that makes them; the "
     "error list is read from the RuntimeError returned by Runtime::finish (PanicError / JoinError paths; the JoinError kind from its "
@@ -31,7 +36,8 @@ CLAIM = dict(
     text="Machine-checked (Coq 8.16, axiom-free) for the model of unwind.rs/events.rs/ctx.rs/mod.rs (Harness::exec/catch as: the rest of "
          "the callback and the yield are skipped, the module is deactivated, a PanicError is recorded unless Stereotyp.on_panic_catch as "
          "read when the panic is caught, i.e. after the callback), "
-         "for every script of 2..4 modules with panics anywhere in handle_message / at_sim_start / at_sim_end / tasks, task handles given "
+         "for every script of 2..4 modules with panics (explicit, or raised by schedule_at / send_at / shutdow_and_restart_at called with a past time stamp -- in "
+         "the model each is a panic at that point of the callback) anywhere in handle_message / at_sim_start / at_sim_end / tasks, task handles given "
          "to join() or try_join(), any number of "
          "panicking modules, both stereotypes and set_stereotyp anywhere in callbacks and tasks: (1) contained: after a callback of m panicked no start-up stage and no dispatched event holds any record of m "
          "(no handler, wake-up, task step, send) until a restart event of m, which exists only if m itself requested "
@@ -73,7 +79,11 @@ CLAIM = dict(
          "corpus/C13/multistage_panic.txt; a runtime that samples the stereotype before the callback is the pinned variant (c) there. "
          "The tear-down records of other modules agree up to the final time stamp (left-over wake-ups of the dead module move the end of "
          "the simulation): proved (others_teardown), and so is that the silent run never ends later than the panicking one "
-         "(silent_ends_no_later; the monitor clause stays). at_sim_end is called on panicked modules too.",
+         "(silent_ends_no_later; the monitor clause stays). at_sim_end is called on panicked modules too. Before 09c7b16 (F19) "
+         "current().shutdow_and_restart_at(t) with t in the past was accepted inside the callback and rejected only when buf_process "
+         "handed the restart event to the runtime, outside the panic harness -- run() itself panicked (not contained, not attributed): "
+         "Refuted/C13.v (d), corpus/C13/library_panics.txt line 3; since the fix the call panics inside the callback and is scripted "
+         "like the other two.",
     technique="Coq: trace invariants over a step relation (panic => inactive, inactive => no records), error-list bookkeeping, and a "
               "stuttering two-run simulation with a relational reading of the interpreter; differential correspondence check; log monitor",
     design="6/C13")
@@ -211,7 +221,7 @@ def monitor(script, out):
             dq = copy.deepcopy(d)
             for ps in (dq["mods"][m]["start"], dq["mods"][m]["msg"], [dq["mods"][m]["end"]]):
                 for p in ps:
-                    p[:] = [("quiet",) if x[0] == "panic" else x for x in p]
+                    p[:] = [("quiet",) if x[0] in PANICS else x for x in p]
             check_panics(dq, v)
             ta = [r[3] for r in a if r[0] == R_END]
             tv = [r[3] for r in v if r[0] == R_END]
@@ -229,6 +239,26 @@ def monitor(script, out):
     return None
 
 
+def panic_source(d, phase, recs, r, inc):
+    """the script action behind panic record r: the first panic-like action of the program that ran (a callback also ends at
+    `quiet`)"""
+    mod = d["mods"][r[1]]
+    if r[2] > 0:
+        prog = mod["tasks"][r[2] - 1] if r[2] - 1 < len(mod["tasks"]) else []
+        stop = PANICS
+    else:
+        stop = PANICS + ("quiet",)
+        if phase == "end":
+            prog = mod["end"]
+        elif any(x[0] == R_MSG for x in recs):
+            x = next(x for x in recs if x[0] == R_MSG)
+            prog = mod["msg"][x[2] % len(mod["msg"])] if mod["msg"] else []
+        else:
+            prog = mod["start"][min(inc, len(mod["start"]) - 1)] if mod["start"] else []
+    a = next((a for a in prog if a[0] in stop), None)
+    return a[0] if a else None
+
+
 def mechanisms(script, out):
     ms = set()
     try:
@@ -240,9 +270,30 @@ def mechanisms(script, out):
     if not panics and not any(tp):
         return ms
     seen = set()
+    incs = [0] * len(d["mods"])
     for phase, t, mask, recs in run.units():
         mods = {rec_mod(r) for r in recs}
         for r in recs:
+            if r[0] == R_PANIC:
+                src = panic_source(d, phase, recs, r, incs[r[1]])
+                nowu = t if phase == "loop" else (0 if phase == "start" else next((x[3] for x in recs if x[0] in CALLS), 0))
+                if src in ("sched_past", "send_past", "restart_past") and nowu == 0:
+                    ms.add("past_call_at_time_zero_panics_by_script")
+                elif src in ("sched_past", "send_past", "restart_past"):
+                    api = {"sched_past": "schedule_at_past", "send_past": "send_at_past", "restart_past": "restart_at_past"}[src]
+                    ms.add("panic_raised_by_" + api)
+                    if r[2] > 0:
+                        ms.add("panic_raised_by_" + api + "_in_task")
+                    elif any(x[0] == R_MSG for x in recs):
+                        ms.add("panic_raised_by_" + api + "_in_handle_message")
+                    elif phase == "end":
+                        ms.add("panic_raised_by_" + api + "_in_at_sim_end")
+                    else:
+                        ms.add("panic_raised_by_" + api + "_in_at_sim_start")
+                    if any(x[0] in (R_SEND, R_SCHED) and x[1] == r[1] for x in recs):
+                        ms.add("library_panic_after_buffered_sends")
+            if r[0] == R_RESET:
+                incs[r[1]] = r[3]
             if r[0] == R_PANIC and r[2] == 0:
                 kind = "handle_message" if any(x[0] == R_MSG for x in recs) else ("at_sim_end" if phase == "end" else
                        ("restart_at_sim_start" if phase == "loop" else "at_sim_start"))
@@ -331,10 +382,10 @@ def sites(d):
     return out
 
 
-def place(d, site):
+def place(d, site, act=("panic",)):
     m, kind, i, pos = site
     p = d["mods"][m]["end"] if kind == "end" else d["mods"][m][kind][i]
-    p.insert(pos, ("panic",))
+    p.insert(pos, act)
 
 
 def gen_script(rng):
@@ -346,7 +397,7 @@ def gen_script(rng):
         chosen = [s for s in chosen if s[1] != "tasks"] or chosen
     # place from the back so that positions stay valid
     for s in sorted(set(chosen), key=lambda s: -s[3]):
-        place(d, s)
+        place(d, s, gen_panic(rng))
     for m in d["mods"]:
         m["catch"] = rng.randint(0, 1)
         # which JoinHandles go to join() rather than try_join()
@@ -357,7 +408,7 @@ def gen_script(rng):
         r = rng.random()
         prog = d["mods"][mm]["end"] if kind == "end" else d["mods"][mm][kind][i]
         if r < 0.35:
-            at = prog.index(("panic",)) if ("panic",) in prog else 0
+            at = next((ix for ix, x in enumerate(prog) if x[0] in PANICS), 0)
             prog.insert(rng.randint(0, at), ("setcatch", rng.randint(0, 1)))
         elif r < 0.5:
             other = rng.choice(["start", "msg", "tasks"])
@@ -387,7 +438,7 @@ def fam_long_tail(rng):
     m = rng.randrange(k)
     mods[m]["tasks"] = [[("sleep", rng.choice([3, 5])), ("sleep", rng.choice([10, 20])), ("log", 7), ("sleep", rng.choice([5, 40])), ("log", 8)],
                         [("sleep", rng.choice([8, 15, 25])), ("log", 9)]][:rng.choice([1, 2])]
-    mods[m]["msg"] = [[("log", 2), ("panic",)]]
+    mods[m]["msg"] = [[("log", 2), gen_panic(rng)]]
     if rng.random() < 0.3:
         mods[m]["msg"][0].insert(1, ("restart", rng.choice([1, 4])))
     inj = [(0, m, rng.choice([1, 2, 4]), 0)] + [(rng.choice([0, 1]), rng.randrange(k), rng.choice(TIMES), rng.randint(0, 3))
@@ -426,13 +477,15 @@ def fixed_sims():
 
 def exhaustive():
     """every (module, callback, program, position) panic placement in two fixed simulations x both stereotypes, each compared with
-    its falls-silent variant where the panic is in a callback"""
+    its falls-silent variant where the panic is in a callback; the panic is an explicit one, or raised by schedule_at / send_at called
+    or current().shutdow_and_restart_at called with a time stamp in the past"""
     for base in fixed_sims():
         for site in sites(base):
             for catch in (0, 1):
-                d = copy.deepcopy(base)
-                place(d, site)
-                d["mods"][site[0]]["catch"] = catch
-                if site[1] != "tasks":
-                    d["variant"] = site[0]
-                yield encode(d)
+                for act in (("panic",), ("sched_past", 0, 1), ("send_past", 0, 2, 1), ("restart_past", 0)):
+                    d = copy.deepcopy(base)
+                    place(d, site, act)
+                    d["mods"][site[0]]["catch"] = catch
+                    if site[1] != "tasks":
+                        d["variant"] = site[0]
+                    yield encode(d)
